@@ -174,6 +174,9 @@ class Context:
         return exit_code
 
     def write_evidence(self, n_fresh: int, n_known: int) -> None:
+        if os.environ.get("VSTATIC_NO_EVIDENCE") or self.P.root != "/repo" or self.P.overlay:
+            # development runs against scratch trees never touch the committed evidence
+            return
         os.makedirs(EVIDENCE_DIR, exist_ok=True)
         samples: List[Any] = list(self.samples)
         for rule in sorted(self.instances):
